@@ -132,7 +132,7 @@ def run_ref(toks):
                 B[int(a[1])] = B[int(a[2])].copy(); out.append("ok")
             elif op == "w":
                 out.append(("w", B[int(a[1])].sig()))
-            elif op[0] == "a":
+            elif op[0] == "a" or (op[0] == "r" and op[1:] == "md"):      # rmd: the same add through a re-used application object
                 out.append(str(B[int(a[1])].add(op[1:], a[2])))
             elif op[0] == "v":
                 out.append(str(B[int(a[1])].addv(op[1:], a[2])))
